@@ -183,7 +183,8 @@ pub fn gen_history(rng: &mut Rng) -> (Vec<Op>, &'static str) {
     // the model side of the `eg` protocol sizes its term universe from all insertions of a history: a generator that inserts
     // after a union would make the model count classes the implementation does not have yet (a false alarm, twice made)
     if let Some(u) = ops.iter().position(|o| matches!(o, Op::Union(..))) {
-        assert!(ops[u..].iter().all(|o| !matches!(o, Op::Add(_))), "generator `{stream}` inserts after a union");
+        // (`latesym` inserts after unions on purpose; the model side then leaves the class count undetermined)
+        assert!(stream == "latesym" || ops[u..].iter().all(|o| !matches!(o, Op::Add(_))), "generator `{stream}` inserts after a union");
     }
     if rng.chance(1, 8) {
         return (ops.into_iter().map(|o| match o { Op::Add(t) => Op::Add(fstyle_term(&t)), x => x }).collect(), stream);
@@ -192,7 +193,9 @@ pub fn gen_history(rng: &mut Rng) -> (Vec<Op>, &'static str) {
 }
 
 fn gen_history0(rng: &mut Rng) -> (Vec<Op>, &'static str) {
-    let stream = match rng.below(27) {
+    let stream = match rng.below(29) {
+        28 => "latesym",
+        27 => "redsym4",
         26 => "wred",
         25 => "symbinder",
         24 => "sumxor",
@@ -235,8 +238,10 @@ fn gen_history0(rng: &mut Rng) -> (Vec<Op>, &'static str) {
     if stream == "inherit" || stream == "symred" || stream == "deepsym" || stream == "upmerge" {
         return (gen_structured(rng, stream), stream);
     }
-    if stream == "tripledep" || stream == "collapse" || stream == "shadow" || stream == "migrate" || stream == "fcapture" || stream == "symred4" || stream == "sumxor" || stream == "symbinder" || stream == "wred" {
+    if stream == "tripledep" || stream == "collapse" || stream == "shadow" || stream == "migrate" || stream == "fcapture" || stream == "symred4" || stream == "sumxor" || stream == "symbinder" || stream == "wred" || stream == "redsym4" || stream == "latesym" {
         let raw = match stream {
+            "redsym4" => gen_redsym4(rng),
+            "latesym" => gen_latesym(rng),
             "tripledep" => gen_tripledep(rng),
             "sumxor" => gen_sumxor(rng),
             "symbinder" => gen_symbinder(rng),
@@ -614,6 +619,101 @@ pub fn gen_symred4(rng: &mut Rng) -> Vec<Op> {
     ops
 }
 
+/// a parent over a four-slot leaf first loses one position (`h(c(x,y,u,v)) = h(c(x,z,u,v))`), then the leaf gets ONE composite
+/// symmetry that exchanges the lost position with a live one and, at the same time, two other live positions: the parent keeps
+/// the other pair (now with the swap as a symmetry) — it must not lose them
+pub fn gen_redsym4(rng: &mut Rng) -> Vec<Op> {
+    let num = |s: &str| ATerm { v: 15, fields: vec![CField::Lit(s.into())], children: vec![] };
+    let mut pos: Vec<usize> = (0..4).collect();
+    rng.shuffle(&mut pos);
+    let (a, b, c, d) = (pos[0], pos[1], pos[2], pos[3]);
+    let names = [4u32, 8, 12, 16];
+    let spare = 20u32;
+    let f = |perm: &Vec<usize>, red: Option<usize>| {
+        let sl: Vec<u32> = (0..4).map(|i| if Some(i) == red { spare } else { names[perm[i]] }).collect();
+        leaf(9, &sl)
+    };
+    let id: Vec<usize> = (0..4).collect();
+    let mut both = id.clone();
+    both.swap(a, b);
+    both.swap(c, d);
+    let par = |t: ATerm| un(13, t);
+    let mut ops: Vec<Op> = Vec::new();
+    for i in 0..rng.below(4) {
+        ops.push(Op::Add(un(13, num(&format!("{}", 3 + i)))));
+    }
+    let base = ops.len();
+    ops.push(Op::Add(par(f(&id, None))));
+    ops.push(Op::Add(par(f(&id, Some(b)))));
+    ops.push(Op::Add(f(&id, None)));
+    ops.push(Op::Add(f(&both, None)));
+    if rng.chance(1, 2) {
+        // the same parent with the surviving pair exchanged
+        let mut cd = id.clone();
+        cd.swap(c, d);
+        ops.push(Op::Add(par(f(&cd, None))));
+    }
+    if rng.chance(3, 4) {
+        ops.push(Op::Union(base, base + 1));
+        ops.push(Op::Union(base + 2, base + 3));
+    } else {
+        ops.push(Op::Union(base + 2, base + 3));
+        ops.push(Op::Union(base, base + 1));
+    }
+    ops
+}
+
+/// parents inserted AFTER their children's symmetries are complete: the new class needs several generators at once (a child with
+/// all of S3, or two commutative children), and further copies of the parent with permuted arguments must be found again
+pub fn gen_latesym(rng: &mut Rng) -> Vec<Op> {
+    let mut ops: Vec<Op> = Vec::new();
+    if rng.chance(1, 2) {
+        let (x, y, z) = (4u32, 8u32, 12u32);
+        let c = |a: u32, b: u32, c: u32| leaf(8, &[a, b, c]);
+        ops.push(Op::Add(c(x, y, z)));
+        ops.push(Op::Add(c(y, x, z)));
+        ops.push(Op::Add(if rng.chance(1, 2) { c(x, z, y) } else { c(y, z, x) }));
+        ops.push(Op::Union(0, 1));
+        ops.push(Op::Union(0, 2));
+        let par = |t: ATerm| if true { un(13, t) } else { t };
+        let perms = [[x, y, z], [y, x, z], [y, z, x], [z, y, x], [x, z, y], [z, x, y]];
+        let first = rng.below(6);
+        ops.push(Op::Add(par(c(perms[first][0], perms[first][1], perms[first][2]))));
+        for _ in 0..rng.range(1, 3) {
+            let k = rng.below(6);
+            ops.push(Op::Add(par(c(perms[k][0], perms[k][1], perms[k][2]))));
+        }
+        if rng.chance(1, 2) {
+            // one level higher: the grandparent's shape depends on the parent's (complete) group
+            // (next to a sibling that mentions one of the slots: a unary context alone has one shape whatever the order)
+            let sib = |s: u32| if true { leaf(2, &[s]) } else { leaf(10, &[s]) };
+            ops.push(Op::Add(bin(14, sib(x), par(c(perms[first][0], perms[first][1], perms[first][2])))));
+            if rng.chance(1, 3) {
+                let k = rng.below(6);
+                ops.push(Op::Add(bin(14, sib(x), par(c(perms[k][0], perms[k][1], perms[k][2])))));
+            }
+        }
+    } else {
+        let (a, b, c, d) = (4u32, 8u32, 12u32, 16u32);
+        let l = |x: u32, y: u32| leaf(7, &[x, y]);
+        let r = |x: u32, y: u32| leaf(11, &[x, y]);
+        ops.push(Op::Add(l(a, b)));
+        ops.push(Op::Add(l(b, a)));
+        ops.push(Op::Add(r(c, d)));
+        ops.push(Op::Add(r(d, c)));
+        ops.push(Op::Union(0, 1));
+        ops.push(Op::Union(2, 3));
+        let outer = if rng.chance(1, 2) { 14 } else { 4 };
+        ops.push(Op::Add(bin(outer, l(a, b), r(c, d))));
+        let variants = [(b, a, c, d), (a, b, d, c), (b, a, d, c)];
+        for _ in 0..rng.range(1, 3) {
+            let (p, q, u, v) = variants[rng.below(3)];
+            ops.push(Op::Add(bin(outer, l(p, q), r(u, v))));
+        }
+    }
+    ops
+}
+
 /// a free slot spelled like a fresh slot the library has not handed out yet (`$f<N>`, N large), under a binder whose body
 /// already exists as a class: the first fresh slot drawn after the name was read is the one that renames the binder — it
 /// must not be the user's slot.  Two alpha-variants are united (a trivial equation), then `λx. x a` and `λx. x b` are compared
@@ -711,7 +811,7 @@ pub fn gen_shadow(rng: &mut Rng) -> Vec<Op> {
     ops
 }
 
-fn leaf(v: usize, slots: &[u32]) -> ATerm {
+pub fn leaf(v: usize, slots: &[u32]) -> ATerm {
     ATerm { v, fields: slots.iter().map(|s| CField::Slot(*s)).collect(), children: vec![] }
 }
 fn un(v: usize, a: ATerm) -> ATerm {
